@@ -7,14 +7,17 @@ MANIFEST = {
             "pxgstrf_relax_snode/ParallelInit/pxgstrf_scheduler and of the thread loop, for every forest accepted by the "
             "executable check_init, every thread count and every interleaving: queue bounds (tail <= n), tasks_remain = "
             "#untaken panels, each panel handed out at most once and exactly once in a complete run, no stuck protocol state "
-            "(a working thread whose children are DONE can always finish; the scheduler never blocks). The model is tied to "
+            "(a working thread whose children are DONE can always finish; the scheduler never blocks); FAIR TERMINATION: there is no "
+            "infinite weakly fair run (c04_fair_termination: under every schedule in which a thread whose step stays enabled "
+            "eventually moves, all threads leave the loop after finitely many steps; an unfair infinite run exists, so the "
+            "hypothesis is needed), and a state without enabled step is the complete final state. The model is tied to "
             "the C code on every run by a lock-step walk of the model's state space in which every transition is also "
             "executed by the real scheduler (ASan build) and all scheduler state compared, plus threaded runs of the real "
             "drivers under seeded schedule perturbation (per-column release counters, thread counts, watchdog).",
     "note": "Trusted: Coq kernel, extraction (ExtrOcamlBasic), the lock-step harness; the model treats one scheduler call as "
             "atomic w.r.t. the DONE store of other threads (each state cell is read once, monotone); sequentially "
             "consistent memory and weak fairness of the OS scheduler are assumed; termination of the real threads is "
-            "observed (watchdog), the theorem is about the protocol model (partial: fair termination is not a theorem).",
+            "observed (watchdog); the termination theorem is about the protocol model under weak fairness of the threads.",
     "technique": "Coq invariant proof over an executable scheduler/thread-loop model + lock-step model-vs-C state-space walk",
 }
 
@@ -209,9 +212,9 @@ def run(ctx):
     ctx.cov["correspondence"]["threaded_runs"] = nthr
     ctx.cov["correspondence"]["runs_with_tasks_remain_equal_to_model_at_every_handout"] = ntask
     ctx.sample({"threaded_case": {k: cases[0][k] for k in ("kind", "n", "nprocs", "colperm", "ienv", "perturb")}})
-    ctx.cov["partial"] += ["termination is proved up to fairness of the OS scheduler: no stuck state + the work of ANY run is bounded "
-                           "(c04_work_bounded: at most one hand-out and one completion per panel, DONE absorbing); that every worker "
-                           "gets to run (fairness) is the platform's",
+    ctx.cov["partial"] += ["termination is proved for the protocol model under weak fairness of the threads (c04_fair_termination; without "
+                           "fairness an infinite run exists: c04_unfair_run_exists); that the platform schedules every runnable thread "
+                           "eventually is the OS's, observed by the watchdog",
                            "pthread creation/join and the OS scheduler are observed (thread counts, watchdog), not modelled"]
     ctx.assumptions += ["one scheduler call is atomic w.r.t. other threads' STATE=DONE stores (each cell read once; monotone)",
                         "sequentially consistent memory; weak fairness of the OS scheduler"]
